@@ -189,6 +189,31 @@ func c10Ambiguous(w *world.World) string {
 			return "service with empty selector"
 		}
 	}
+	for i := range w.Ingresses { // an Ingress port number carried by several ports of the service (one number under two protocols)
+		in := &w.Ingresses[i]
+		bs := append([]world.Backend{}, func() []world.Backend {
+			if in.Default != nil {
+				return []world.Backend{*in.Default}
+			}
+			return nil
+		}()...)
+		for _, rule := range in.Rules {
+			bs = append(bs, rule...)
+		}
+		for _, b := range bs {
+			if sv := svcOf(in.Ns, b.Svc); sv != nil && b.PortName == "" {
+				n := 0
+				for _, sp := range sv.Ports {
+					if sp.Port == b.PortNum {
+						n++
+					}
+				}
+				if n > 1 {
+					return "ingress port number carried by several service ports"
+				}
+			}
+		}
+	}
 	for i := range w.Routes {
 		rt := &w.Routes[i]
 		for _, name := range append([]string{rt.To}, rt.Alternates...) {
@@ -252,6 +277,21 @@ func runC10(c *run.Ctx) {
 				if w.Services[i].Ports[pi].Proto == "UDP" {
 					w.Services[i].Ports[pi].Proto = ""
 				}
+			}
+		}
+		// a Service listing one port NUMBER under two protocols (443/UDP for QUIC before 443/TCP): two different service ports; the UDP
+		// one targets a number the workload does not declare, so it reaches nothing however it is designated
+		if g.P(0.15) && len(w.Services) > 0 {
+			sv := &w.Services[g.Intn(len(w.Services))]
+			for pi := range sv.Ports {
+				if sv.Ports[pi].Name == "" || sv.Ports[pi].Proto == "UDP" {
+					continue
+				}
+				twin := world.SvcPort{Name: "quic", Port: sv.Ports[pi].Port, TargetNum: 9999, Proto: "UDP"}
+				sv.Ports[pi].Proto = "TCP"
+				sv.Ports = append(sv.Ports[:pi], append([]world.SvcPort{twin}, sv.Ports[pi:]...)...)
+				w.AddFeature("servicePortNumberUnderTwoProtocols")
+				break
 			}
 		}
 		// policies come after the ingress resources so that selectors can aim at the targeted workloads
